@@ -8,7 +8,7 @@ here=$(cd "$(dirname "$0")/.." && pwd)
 cd "$here"
 names="$@"; [ -z "$names" ] && names=$(ls seeded)
 git -C $R diff --quiet || { echo "/repo is dirty, refusing"; exit 2; }
-L=${RESEED_LOGDIR:-/root/work}   # per-check logs (override with RESEED_LOGDIR)
+L=${RESEED_LOGDIR:-/root/work}; mkdir -p "$L"   # per-check logs (override with RESEED_LOGDIR)
 B=$(mktemp -d /root/work/evbak.XXXX); cp evidence/*.json $B/
 for n in $names; do
   d="$here/seeded/$n"
